@@ -61,7 +61,7 @@ def isResource (obs : String) : Bool := obs.startsWith "resource:"
 /-- keys of defect classes that are recorded as status "known" in known_findings.json. Every other panic —
     also the return of one of the 13 that were fixed in /repo — is a falsified property: PROPFAIL.
     Remove a key here when its entry is flipped to "fixed". -/
-def knownKeys : List String := ["riff:riff.aiffPString:slice-bounds-out-of-range"]
+def knownKeys : List String := []
 
 def knownVerdict (obs : String) : String :=
   let key := (obs.drop 6).toString
